@@ -1,6 +1,7 @@
 package harness
 
 import (
+	"runtime"
 	"errors"
 	"fmt"
 	"os"
@@ -15,7 +16,7 @@ import (
 )
 
 func init() {
-	probeNames["C18"] = []string{"open_ok", "open_locked_rejected", "open_invalid_options", "open_damaged_headers", "open_truncated_file", "open_init_write_fault", "open_read_fault", "open_updmaxsize_fault", "close", "wait_lock"}
+	probeNames["C18"] = []string{"open_ok", "open_locked_rejected", "open_invalid_options", "open_damaged_headers", "open_truncated_file", "open_init_write_fault", "open_read_fault", "open_updmaxsize_fault", "close", "wait_lock", "two_waiters", "two_waiters_failing_first"}
 	register(&PropDef{
 		ID: "C18", Level: "exploration", QuickSec: 40, ThoroSec: 600,
 		Rule: "each run = one seeded sequence (10-40 steps) of open / failing open / close on ONE path with two handles, on the real file system with the real flock: failing opens are produced by invalid options (rejected before the file is touched), both headers damaged, file truncated below the header size, an injected WriteAt failure during file initialisation, an injected ReadAt failure while reading the headers, and an injected WriteAt failure inside the FlagUpdMaxSize maintenance transaction (all of these fail AFTER the path lock was taken). One-bit lock model: Open succeeds iff the model says the path is free; while a handle is open every other Open without the wait flag fails with an error of kind LockFailed; after every Close and after every failed Open an immediate Open succeeds (never LockFailed); with FlagWaitLock a second goroutine's Open returns only after the holder's Close was invoked (ordered by event sequence numbers). Non-trivial = sequence containing at least one failing open that failed after taking the lock; distinct = hash of the step sequence.",
@@ -104,7 +105,7 @@ func c18Direct(c *Case) *Result {
 			if i >= n {
 				break
 			}
-			op = Op{K: []string{"open", "open", "close", "close", "badopts", "damage", "truncate", "initfault", "readfault", "updfault", "waitlock"}[rng.Intn(11)], A: rng.Intn(2), B: rng.Intn(1 << 16)}
+			op = Op{K: []string{"open", "open", "close", "close", "badopts", "damage", "truncate", "initfault", "readfault", "updfault", "waitlock", "waitlock2"}[rng.Intn(12)], A: rng.Intn(2), B: rng.Intn(1 << 16)}
 		}
 		rec = append(rec, op)
 		h := op.A % 2
@@ -291,6 +292,130 @@ func c18Direct(c *Case) *Result {
 				break
 			}
 			f.Close()
+		case "waitlock2":
+			// two goroutines wait for the path: one whose Open fails after it got the
+			// lock (injected read failure, keyed by goroutine), one that succeeds
+			if holder < 0 || handles[1-holder] != nil {
+				rec = rec[:len(rec)-1]
+				continue
+			}
+			var failID int64
+			txfile.VerifSetOSFault(func(o string, off int64) error {
+				if o == "read" && goidC18() == atomic.LoadInt64(&failID) {
+					return errC18
+				}
+				return nil
+			})
+			o := opts()
+			o.Flags |= txfile.FlagWaitLock
+			type openRes struct {
+				f   *txfile.File
+				err error
+			}
+			doneA, doneB := make(chan openRes, 1), make(chan openRes, 1)
+			startA := func() {
+				go func() {
+					atomic.StoreInt64(&failID, goidC18())
+					f, err := txfile.Open(path, 0o600, o)
+					doneA <- openRes{f, err}
+				}()
+			}
+			startB := func() {
+				go func() {
+					f, err := txfile.Open(path, 0o600, o)
+					doneB <- openRes{f, err}
+				}()
+			}
+			pause := func() { time.Sleep(time.Duration(2+rng.Intn(8)) * time.Millisecond) }
+			if op.B%2 == 0 {
+				startA()
+				pause()
+				startB()
+			} else {
+				startB()
+				pause()
+				startA()
+			}
+			pause()
+			early := func(r openRes, who string) {
+				if r.err == nil {
+					r.f.Close()
+				}
+				fail("wait-lock", "Open with FlagWaitLock (%s) returned (%v) while handle %d still holds the file open", who, r.err, holder)
+			}
+			select {
+			case r := <-doneA:
+				early(r, "the waiter whose open fails later")
+			case r := <-doneB:
+				early(r, "the second waiter")
+			default:
+			}
+			if res.Viol != nil {
+				txfile.VerifSetOSFault(nil)
+				break
+			}
+			cerr := handles[holder].Close()
+			handles[holder], holder = nil, -1
+			if cerr != nil {
+				txfile.VerifSetOSFault(nil)
+				fail("close-error", "File.Close failed: %v", cerr)
+				break
+			}
+			var rb openRes
+			select {
+			case rb = <-doneB:
+			case <-time.After(30 * time.Second):
+				res.Viol = &Violation{Prop: "C18", Class: "wait-lock-hang", Msg: "Open with FlagWaitLock did not return within 30s after the holder closed the file (a second waiter's Open fails after taking the lock)"}
+			}
+			if res.Viol != nil {
+				break
+			}
+			if rb.err != nil {
+				txfile.VerifSetOSFault(nil)
+				fail("wait-lock", "Open with FlagWaitLock failed after the holder closed the file: %v", rb.err)
+				break
+			}
+			aFirst := false
+			select {
+			case ra := <-doneA:
+				aFirst = true
+				doneA <- ra
+			default:
+			}
+			// the second waiter's File is open now: the path must be locked
+			var fc *txfile.File
+			var errc error
+			guard("Open", func() { fc, errc = txfile.Open(path, 0o600, opts()) })
+			if res.Viol == nil && errc == nil {
+				fc.Close()
+				fail("double-open", "Open succeeded while the File returned to a waiting Open is open (another waiter's Open failed after taking the lock: %v)", aFirst)
+			} else if res.Viol == nil && !isLockErr(errc) {
+				fail("wrong-kind", "Open while the file is open failed with an error that is not of kind LockFailed: %v", errc)
+			}
+			rb.f.Close()
+			select {
+			case ra := <-doneA:
+				if ra.err == nil {
+					ra.f.Close()
+					if res.Viol == nil {
+						fail("no-error", "Open succeeded although reading the file headers failed")
+					}
+				}
+			case <-time.After(30 * time.Second):
+				if res.Viol == nil {
+					res.Viol = &Violation{Prop: "C18", Class: "wait-lock-hang", Msg: "Open with FlagWaitLock did not return within 30s after the holder closed the file"}
+				}
+			}
+			txfile.VerifSetOSFault(nil)
+			if res.Viol != nil {
+				break
+			}
+			nontrivial = true
+			res.Probes["two_waiters"]++
+			if aFirst {
+				res.Probes["two_waiters_failing_first"]++
+			}
+			mustOpen(h, "two waiting Opens (one failed after taking the lock) finished and the file was closed")
 		case "waitlock":
 			if holder < 0 || handles[1-holder] != nil {
 				rec = rec[:len(rec)-1]
@@ -361,4 +486,17 @@ func c18Direct(c *Case) *Result {
 	res.SchedHash = h
 	res.Nontrivial = nontrivial
 	return res
+}
+
+func goidC18() int64 {
+	var buf [64]byte
+	n := runtime.Stack(buf[:], false)
+	var id int64
+	for _, c := range buf[10:n] {
+		if c < '0' || c > '9' {
+			break
+		}
+		id = id*10 + int64(c-'0')
+	}
+	return id
 }
